@@ -70,6 +70,28 @@ Theorem C15_data_value : forall (s s' : @ppspline R (dual R)) tau y l r lsq,
                 ppdnev_single xmul_num (pp_map (@re R) s') x m = Ok (re d).
 Proof. exact data_sens_re. Qed.
 
+(* the same for Dual2 data: value, first-order coefficient of v, stored second-order coefficient
+   of (u, v) of the solved spline = the spline solved on those observations of the data *)
+Theorem C15_data_sensitivity2 : forall (u v : name) (s s' : @ppspline R (dual2 R)) tau y l r lsq,
+  List.Forall wf2 y ->
+  csolve xmul_dual2 s tau y l r lsq = Ok s' ->
+  (forall x m d, ppdnev_single xmul_dual2 s' x m = Ok d ->
+     ppdnev_single xmul_num (pp_map (@re2 R) s') x m = Ok (re2 d) /\
+     ppdnev_single xmul_num (pp_map (fun d => coef1 d v) s') x m = Ok (coef1 d v) /\
+     ppdnev_single xmul_num (pp_map (fun d => coef2 d u v) s') x m = Ok (coef2 d u v)) /\
+  csolve xmul_num (pp_map (@re2 R) s) tau (map (@re2 R) y) l r lsq = Ok (pp_map (@re2 R) s') /\
+  csolve xmul_num (pp_map (fun d => coef1 d v) s) tau (map (fun d => coef1 d v) y) l r lsq
+    = Ok (pp_map (fun d => coef1 d v) s') /\
+  csolve xmul_num (pp_map (fun d => coef2 d u v) s) tau (map (fun d => coef2 d u v) y) l r lsq
+    = Ok (pp_map (fun d => coef2 d u v) s').
+Proof.
+  intros u v s s' tau y l r lsq G HS.
+  destruct (data_sens2_re s s' tau y l r lsq G HS) as [A1 A2].
+  destruct (data_sens2_coef1 v s s' tau y l r lsq G HS) as [B1 B2].
+  destruct (data_sens2_coef2 u v s s' tau y l r lsq G HS) as [C1 C2].
+  repeat split; auto.
+Qed.
+
 (* with one own variable per datum, the sensitivities of the data w.r.t. name_i are the i-th unit
    vector: the sensitivity to datum i is the spline solved on unit data e_i *)
 Theorem C15_unit_data : forall names, NoDup names -> forall vals i, length vals = length names ->
@@ -85,6 +107,17 @@ Theorem C15_abscissa : forall (X : dual R), wf X -> forall (s : @ppspline R R) m
                 ppdnev_single xmul_num s (re X) (m + 1) = Ok v1 /\
                 wf d /\ re d = v0 /\ forall v, coef d v = v1 * coef X v.
 Proof. exact ppdnev_f_dual_spec. Qed.
+
+(* Dual coefficients AND a Dual abscissa (PPSpline<Dual>::ppdnev_single_dual): the sensitivity is
+   the sensitivity through the data plus the spline's own derivative times the abscissa's *)
+Theorem C15_abscissa_dual_spline : forall (X : dual R), wf X ->
+  forall (s : @ppspline R (dual R)) c m d,
+  pc s = Some c -> List.Forall wf c ->
+  ppdnev_d_dual s X m = Ok d ->
+  exists d0 d1, ppdnev_single xmul_dual s (re X) m = Ok d0 /\
+                ppdnev_single xmul_dual s (re X) (m + 1) = Ok d1 /\
+                wf d /\ re d = re d0 /\ forall v, coef d v = coef d0 v + re d1 * coef X v.
+Proof. exact ppdnev_d_dual_spec. Qed.
 
 (* Dual2 abscissa: first order as above; second order (stored half-Hessian) as coded:
    s' * X_uv + 1/2 s'' * X_u X_v *)
@@ -169,9 +202,11 @@ Print Assumptions C15_interpolates.
 Print Assumptions C15_interpolates_R.
 Print Assumptions C15_data_sensitivity.
 Print Assumptions C15_data_value.
+Print Assumptions C15_data_sensitivity2.
 Print Assumptions C15_unit_data.
 Print Assumptions C15_abscissa.
 Print Assumptions C15_abscissa2.
+Print Assumptions C15_abscissa_dual_spline.
 Print Assumptions C15_kind_table.
 Print Assumptions C15_poly_partial.
 Print Assumptions C15_poly_partial_R.
